@@ -256,14 +256,17 @@ class C17(Engine):
             'killed at libc call n (KILL or TORN write) or at Python tick n, '
             'compile under ENOSPC/EIO/EDQUOT or short writes, truncate / '
             'delete / zero-page damage of cache.db, -wal, -shm, .val files, '
-            'wipe; plus sweeps that execute EVERY libc crash point (KILL and '
+            'wipe, sources rewritten at Python tick n of a running compile, '
+            'the same files in another order; plus sweeps that execute EVERY libc crash point (KILL and '
             'TORN) and every Python tick crash point of six fixed '
             'scenarios; non-trivial = a compile that follows at least one '
             'other operation on the same directory; distinct = distinct '
             '(directory-state hash before the call, call arguments, fault)')
     assumptions = [
         'crash = process kill: completed writes survive (page cache); power '
-        'loss and concurrent writers on one directory are not simulated',
+        'loss and concurrent writers on one directory are not simulated '
+        '(a concurrent EDITOR of the source files is: operation '
+        'compile-edit, the call it overlaps is not judged, later calls are)',
         'behavioural equality is decided on a seeded probe set',
         'single-bit flips of cache.db / -wal / .val run as separately '
         'generated histories (compile, flip 1-2 bits, compile); any wrong '
